@@ -664,7 +664,7 @@ func main() {
 		if j.c.idx == j.pr.start {
 			la = "boot"
 		}
-		level2 := r.Thorough() && j.tail == "synced" && j.env == "reoffer"
+		level2 := j.tail == "synced" && j.env == "reoffer"
 		f1 := factsAt(j.pr, j.c)
 		res, l2 := restart(j.pr.mode, j.pr.wl, [][]consensus.VerifOp{j.pr.ops[:j.c.idx]}, j.wal, j.env, f1, j.pr, level2)
 		r.Add("evaluations", 1)
@@ -756,7 +756,7 @@ func main() {
 	r.Assume("LevelDB batches are atomic and ordered (memorydb stands in); a crash is a process death: unsynced WAL bytes may or may not have reached the file",
 		"the node is driven synchronously (handleTimeout/handleMsg with receiveRoutine's WAL discipline transcribed, OnStart's catch-up/repair loop transcribed); the real ticker and goroutines are not used",
 		"the environment re-offers still-unused workload transactions after a restart (as gossiping peers would)",
-		"first-level crashes only in the quick tier")
+		"second-level crashes: every cut of the restarted life (boot, WAL catch-up, two more heights) of every clean first-level restart with the synced WAL image")
 	r.Require(r.Get("clean_restarts") > 0, "no restart was clean: the oracles cannot distinguish anything")
 	r.Finish()
 }
